@@ -35,7 +35,7 @@ type c10Spec struct {
 	MasterSS   string    `json:"master_semi_sync"`
 	Nodes      []c10Node `json:"nodes"`
 	FailEvery  int       `json:"fail_every_nth_mutating_statement"`
-	StartFails bool      `json:"first_start_replica_on_a_stale_master_fails"` // the turn of a stale master fails at its last statement, once
+	StartFails bool      `json:"first_start_replica_on_a_stale_master_fails"`     // the turn of a stale master fails at its last statement, once
 	SSOffFails bool      `json:"first_semi_sync_disable_on_a_stale_master_fails"` // one step of taking it out of service fails, once
 }
 
